@@ -543,11 +543,16 @@ impl Hist {
                         // a scanned block (sparse checkpoints: long runs of blocks without commitments) the wallet first
                         // drops back to its oldest checkpoint, i.e. below `h`; like a client, the model learns the
                         // achieved height from `block_max_scanned` (counted; DESIGN.md 9.4).
-                        let got = match self.w.block_max_scanned() {
-                            Some(m) => m.min(h).max(base),
-                            None => base,
+                        let model_max_le_h = self.ledger.scanned.iter().map(|b| self.chain.blocks[*b].height).filter(|x| *x <= h).max();
+                        let wallet_max = self.w.block_max_scanned();
+                        let dropped = match (model_max_le_h, wallet_max) {
+                            (Some(mm), Some(wm)) => wm < mm,
+                            (Some(_), None) => true,
+                            (None, _) => false,
                         };
-                        if trees_cut && got < h && self.ledger.scanned.iter().any(|b| { let x = self.chain.blocks[*b].height; x > got && x <= h }) {
+                        // the wallet's view of the tip is `h` unless it dropped below the request
+                        let got = if dropped { wallet_max.unwrap_or(base).max(base) } else { h };
+                        if dropped {
                             self.flags.chain_state_truncations_below_request += 1;
                         }
                         // Known finding (C06): the trees keep checkpoints above the truncation height. It only matters
